@@ -258,6 +258,71 @@ Fixpoint interp (cl : list clause) (fallback : exn) (e : exn) : exn :=
     else interp rest fallback e
   end.
 
+(* ------------------------------------------------------------------ which procedure runs *)
+(* The glue in front of the verification (AirPlay/RAOP): extract_credentials(service) picks the
+   credentials, pair_verify(credentials, connection) picks the procedure from their type.
+   pyatv/auth/hap_pairing.py HapCredentials._get_auth_type; pyatv/protocols/airplay/auth/__init__.py
+   extract_credentials, pair_verify.  The service's Zeroconf properties are unauthenticated data
+   announced by whoever answers on the network. *)
+Inductive ckind := KNull | KLegacy | KHAP | KTransient.
+Inductive procedure := PNull | PLegacy | PHap | PTransient.
+
+Definition transient_marker : bytes := [116; 114; 97; 110; 115; 105; 101; 110; 116].   (* b"transient" *)
+Definition is_empty (b : bytes) : bool := match b with [] => true | _ => false end.
+
+(* None: InvalidCredentialsError("invalid credentials type") *)
+Definition auth_type (c : creds) : option ckind :=
+  if is_empty (ltpk c) && is_empty (ltsk c) && is_empty (atv_id c) && is_empty (client_id c) then Some KNull
+  else if bytes_beq (ltpk c) transient_marker then Some KTransient
+  else if is_empty (ltpk c) && negb (is_empty (ltsk c)) && is_empty (atv_id c) && negb (is_empty (client_id c)) then Some KLegacy
+  else if negb (is_empty (ltpk c)) && negb (is_empty (ltsk c)) && negb (is_empty (atv_id c)) && negb (is_empty (client_id c)) then Some KHAP
+  else None.
+
+(* pair_verify: Null -> NullPairVerifyProcedure, Legacy -> AirPlayLegacyPairVerifyProcedure,
+   HAP -> AirPlayHapPairVerifyProcedure, anything else -> AirPlayHapTransientPairVerifyProcedure *)
+Definition proc_of (k : ckind) : procedure :=
+  match k with KNull => PNull | KLegacy => PLegacy | KHAP => PHap | KTransient => PTransient end.
+
+(* an announced feature string: absent, not matching parse_features' pattern, or a flag word *)
+Inductive fval := FAbsent | FGarbage | FFlags (n : N).
+(* the announced properties extract_credentials may look at ("model" and everything else is
+   carried by the cases but is not an input of the model: the code as it stands ignores them) *)
+Record announce := { a_features : fval; a_ft : fval }.
+
+(* parse_features(properties.get("features", properties.get("ft", "0x0"))): None = ValueError *)
+Definition announced_flags (a : announce) : option N :=
+  match a_features a with
+  | FFlags n => Some n
+  | FGarbage => None
+  | FAbsent => match a_ft a with FFlags n => Some n | FGarbage => None | FAbsent => Some 0 end
+  end.
+
+(* SupportsSystemPairing = 1 << 43, SupportsCoreUtilsPairingAndEncryption = 1 << 48 *)
+Definition supports_transient (n : N) : bool := N.testbit n 43 || N.testbit n 48.
+
+Definition TRANSIENT_CREDENTIALS : creds := {| ltpk := transient_marker; ltsk := []; atv_id := []; client_id := [] |}.
+Definition NO_CREDENTIALS : creds := {| ltpk := []; ltsk := []; atv_id := []; client_id := [] |}.
+
+Inductive selres := SelCreds (c : creds) | SelRaises (e : exn).
+
+(* stored = the parsed fields of service.credentials (None: no credentials stored); building the
+   HapCredentials object raises InvalidCredentialsError (EOther) for an impossible combination *)
+Definition extract_credentials (stored : option creds) (a : announce) : selres :=
+  match stored with
+  | Some c => match auth_type c with Some _ => SelCreds c | None => SelRaises EOther end
+  | None =>
+    match announced_flags a with
+    | None => SelRaises EValueError
+    | Some n => SelCreds (if supports_transient n then TRANSIENT_CREDENTIALS else NO_CREDENTIALS)
+    end
+  end.
+
+Definition selected_procedure (stored : option creds) (a : announce) : option procedure :=
+  match extract_credentials stored a with
+  | SelCreds c => option_map proc_of (auth_type c)
+  | SelRaises _ => None
+  end.
+
 (* start() / verify_connection(): what the caller sees and whether enable_encryption was called /
    send_processor+receive_processor were installed *)
 Record conn := { raised : option exn; keys : bool }.
@@ -276,6 +341,21 @@ Section Connect.
     match verify_credentials x25519 hkdf dec enc pk_load sig_ok sign k p h c f1 pd f3 pd4 with
     | Accept _ => {| raised := None; keys := true |}
     | Raises e => {| raised := Some (surface p e); keys := false |}
+    end.
+
+  (* verify_connection(extract_credentials(service), connection) as atvproxy, the AirPlay set-up
+     and RAOP use it; [other] stands for whatever the non-HAP procedures do (transient pairing,
+     legacy, none): they prove no stored identity and are outside this property *)
+  Definition airplay_glue (stored : option creds) (a : announce) (other : procedure -> conn)
+             (k : pcfg) (h : handler) (f1 : option exn) (pd : bytes) (f3 : option exn) (pd4 : bytes) : conn :=
+    match extract_credentials stored a with
+    | SelRaises e => {| raised := Some e; keys := false |}
+    | SelCreds c =>
+      match auth_type c with
+      | Some KHAP => connect k AirPlay h c f1 pd f3 pd4
+      | Some kd => other (proc_of kd)
+      | None => {| raised := Some EOther; keys := false |}
+      end
     end.
 End Connect.
 
@@ -360,3 +440,19 @@ Definition check_v1 T h c (pd : bytes) (v : option outcome) : bool :=
 Definition check_case (cfg : proto -> pcfg) (x : pcase) : bool :=
   let '(h, c, T, f1, pd, f3, pd4, v, obs) := x in
   check_v1 T h c pd v && forallb (check_pobs cfg T h c f1 pd f3 pd4) obs.
+
+(* ---- selection cases: (stored fields, announcement, what extract_credentials returned/raised,
+   which procedure class pair_verify built) *)
+Definition creds_beq (a b : creds) : bool :=
+  bytes_beq (ltpk a) (ltpk b) && bytes_beq (ltsk a) (ltsk b) && bytes_beq (atv_id a) (atv_id b) && bytes_beq (client_id a) (client_id b).
+Definition selres_beq (a b : selres) : bool :=
+  match a, b with
+  | SelCreds x, SelCreds y => creds_beq x y
+  | SelRaises x, SelRaises y => exn_beq x y
+  | _, _ => false
+  end.
+Scheme Equality for procedure.
+Definition scase := (option creds * announce * selres * option procedure)%type.
+Definition check_sel (x : scase) : bool :=
+  let '(stored, a, r, p) := x in
+  selres_beq (extract_credentials stored a) r && opt_beq procedure_beq (selected_procedure stored a) p.
